@@ -409,6 +409,46 @@ def execute_geo(case):
             out["concurrent"] = concurrency.concurrent_check(
                 [(gi.query, (np.roll(ql, k), np.roll(qo, k)), dict(qkw, r=r)) for k in range(4)],
                 threads=4, rounds=2)
+    if len(case["qlat"]) >= 2 and len(case["qlat"]) % 5 == 2 and hasattr(gi, "tree"):
+        # fault at a particular point: the tree's radius search runs out of memory once (MemoryError on its
+        # first call, normal afterwards). Either the fault reaches the caller or the answer is the
+        # un-faulted one.
+        real_tree = gi.tree
+
+        class OnceOutOfMemory:
+            fired = 0
+
+            def query_radius(self, *a, **kw):
+                if not OnceOutOfMemory.fired:
+                    OnceOutOfMemory.fired = 1
+                    raise MemoryError("harness: injected into the tree's radius search")
+                return real_tree.query_radius(*a, **kw)
+
+            def __getattr__(self, name):
+                return getattr(real_tree, name)
+        gi.tree = OnceOutOfMemory()
+        try:
+            res2 = gi.query(qlat, qlon, case["r"], **qkw)
+            rd = case.get("rd") is not False
+            r1, d1, p1 = unpack_result(res, rd)
+            r2, d2, p2 = unpack_result(res2, rd)
+            if p1 or p2 or r1 is None or r2 is None:
+                out["fault"] = ("n/a", None)
+            else:
+                o1, o2 = sorted(range(len(r1)), key=lambda k: r1[k]), sorted(range(len(r2)), key=lambda k: r2[k])
+                same = [r1[k] for k in o1] == [r2[k] for k in o2] and (
+                    d1 is None or np.allclose(np.asarray(d1)[o1], np.asarray(d2)[o2], rtol=1e-12, atol=0))
+                out["fault"] = ("same", None) if same else \
+                    ("differs", {"pairs_without_fault": len(r1), "pairs_after_the_fault": len(r2),
+                                 "fault_fired": OnceOutOfMemory.fired})
+        except MemoryError:
+            out["fault"] = ("reached-caller", None)
+        except Exception as exc:
+            out["fault"] = ("other-exception", {"exception": repr(exc)})
+        finally:
+            gi.tree = real_tree
+        if not OnceOutOfMemory.fired:
+            out["fault"] = ("not-reached", None)
     return out
 
 
@@ -595,6 +635,11 @@ def check_geo(rec, case, fam=None):
         rec.count("geo.concurrent_" + verdict.replace("/", ""))
         if verdict == "race":
             viol("query-stale-state", dict(detail, where="queries on one index from 4 threads at once"))
+    if out.get("fault"):
+        verdict, detail = out["fault"]
+        rec.count("fault.radius_search_memoryerror." + verdict.replace("/", ""))
+        if verdict in ("differs", "other-exception"):
+            viol("query-after-fault", dict(detail, where="MemoryError injected once into the tree's radius search"))
     if out.get("history"):
         verdict, detail = out["history"]
         rec.count("history.reuse_" + verdict.replace("/", ""))
